@@ -1414,4 +1414,188 @@ class C13(Prop):
                     return
 
 
-ALL = {c.id: c for c in [C01, C02, C03, C04, C05, C06, C07, C08, C09, C10, C11, C12, C13, C17, C18]}
+# ---------------------------------------------------------------- perf protocol
+import math
+
+
+def perf_in(op):
+    t = op.split()
+    n = int(t[1])
+    return [(int(t[2 + 4 * k]), fdec(t[3 + 4 * k]), fdec(t[4 + 4 * k]), fdec(t[5 + 4 * k])) for k in range(n)]
+
+
+def flist(toks):
+    return [fdec(x) for x in toks[1:1 + int(toks[0])]]
+
+
+PERF_ALL = {"R", "DD", "BW", "VAL", "RET", "DAT", "CF", "FL"}
+
+
+class C14(Prop):
+    id = "C14"
+    streams = [Stream("perf", "mix", quick=200, thorough=20000, tags={"R", "BW", "VAL", "RET", "DAT", "CF", "FL", "PANIC"}, state_tags={"DD"}, rtol=1e-12)]
+    determined = False
+    rule = ("snapshot series of length 1..15 (length 1 panics in the code: compared only), grid and wide random values, cash flows, "
+            "inflation, zero capital; every series is also run scaled by 4 (exact in binary64) and the return-based outputs must be "
+            "bit-identical; non-trivial = at least 3 snapshots, positive values, a cash flow or inflation present")
+    level_text = ("Theorems C14.* (Lean 4, carrier R with Mathlib's exp/log/sqrt/rpow): period-return identity, total return = product of "
+                  "(1+r) - 1 (via exp of the sum of logs), plain case last/first - 1 by telescoping, best/worst are max/min, output "
+                  "vectors aligned (n, n, n, n-1), vol = sqrt(252) x population standard deviation, CAGR = (1+ret)^(365/n) - 1, Sharpe = "
+                  "CAGR/vol or CAGR at vol 0, and invariance of every return-based output under scaling by c > 0. Tied to "
+                  "PerformanceCalculator::calculate by correspondence at 1e-12 relative, an identities monitor and a scaling metamorphic run.")
+    level_note = "Partial: binary64 exp/ln/powf/sqrt are not the real functions; outputs compared at 1e-12 relative with the model's Float run and at 1e-9 with the identities"
+    technique = "Lean 4 real-analysis identities (exp_sum, exp_log, rpow) over the literal model of calculate + correspondence + identities monitor + scaling metamorphic check"
+    design_ref = "DESIGN.md section 8, C14"
+    assumptions = ["at least two snapshots, positive capital, inflation > -1 (property's hypotheses)"]
+
+    def nontrivial(self, stream, annot, impl):
+        for op in annot:
+            if op.startswith("CALC"):
+                sn = perf_in(op)
+                if len(sn) >= 3 and all(v > 0 for _, v, _, _ in sn) and (any(c != 0 for _, _, c, _ in sn) or any(i != 0 for _, _, _, i in sn)):
+                    return True
+        return False
+
+    def monitor(self, stream, annot, impl):
+        for k, (op, out) in enumerate(zip(annot, impl)):
+            if not op.startswith("CALC") or out == "PANIC":
+                continue
+            sn = perf_in(op)
+            n = len(sn)
+            s = sections(out)
+            ret, cagr, vol, sharpe = (fdec(x) for x in s["R"])
+            best, worst = (fdec(x) for x in s["BW"])
+            vals, rets, cfs = flist(s["VAL"]), flist(s["RET"]), flist(s["CF"])
+            dates = [int(x) for x in s["DAT"][1:]]
+            if not (len(vals) == len(dates) == len(cfs) == n and len(rets) == n - 1):
+                yield (k, "vectors-align", f"n={n}: values {len(vals)} dates {len(dates)} flows {len(cfs)} returns {len(rets)}")
+                return
+            if vals != [v for _, v, _, _ in sn] or dates != [d for d, _, _, _ in sn]:
+                yield (k, "vectors-align", "values/dates are not the snapshots' in order")
+                return
+            if n < 2 or any(v <= 0 for v in vals):
+                continue
+            ok = True
+            prod = Fraction(1)
+            for i in range(1, n):
+                flow = sn[i][2] - sn[i - 1][2]
+                cap = vals[i - 1] + flow
+                if not cap > 0 or not 1 + sn[i][3] > 0:
+                    ok = False
+                    break
+                want = Fraction(cap) * (1 + Fraction(rets[i - 1])) * (1 + Fraction(sn[i][3]))
+                if not close(vals[i], want, 1e-9):
+                    yield (k, "period-return-identity", f"period {i}: value {vals[i]} vs (prev+flow)(1+r)(1+infl) = {float(want)}")
+                    return
+                prod *= 1 + Fraction(rets[i - 1])
+            if not ok or any(not math.isfinite(x) for x in (ret, cagr, vol, sharpe)):
+                continue
+            if not close(ret, prod - 1, 1e-9, 1.0):
+                yield (k, "total-return-compounds", f"ret {ret} vs prod(1+r)-1 = {float(prod - 1)}")
+                return
+            if best != max(rets) or worst != min(rets):
+                yield (k, "best-worst-are-extremes", f"best {best} worst {worst} of {rets}")
+                return
+            mean = sum(Fraction(r) for r in rets) / len(rets)
+            var = sum((Fraction(r) - mean) ** 2 for r in rets) / len(rets)
+            if not close(vol, math.sqrt(252) * math.sqrt(float(var)), 1e-9, 1e-12):
+                yield (k, "volatility-definition", f"vol {vol} vs sqrt(252)*pstdev = {math.sqrt(252) * math.sqrt(float(var))}")
+                return
+            if 1 + ret > 0 and not close(cagr, (1 + ret) ** (365.0 / n) - 1, 1e-9, 1.0):
+                yield (k, "cagr-definition", f"cagr {cagr} vs (1+ret)^(365/n)-1 = {(1 + ret) ** (365.0 / n) - 1}")
+                return
+            want_sh = cagr if vol == 0 else cagr / vol
+            if not close(sharpe, want_sh, 1e-9, 1e-300):
+                yield (k, "sharpe-definition", f"sharpe {sharpe} vs {want_sh}")
+                return
+
+    def extra(self, stream, runs, wdir, tier, collect):
+        from . import core
+        import os, struct
+        def sc(tok):
+            x = fdec(tok) * 4.0
+            return "f" + str(struct.unpack("<Q", struct.pack("<d", 0.0 if x == 0 else x))[0])
+        lines, idx = [], []
+        for (ops, annot, impl) in runs:
+            for o, i in zip(ops, impl):
+                if o.startswith("CALC") and len(idx) < (20000 if tier == "thorough" else 1500):
+                    t = o.split()
+                    n = int(t[1])
+                    for k in range(n):
+                        t[3 + 4 * k] = sc(t[3 + 4 * k])
+                        t[4 + 4 * k] = sc(t[4 + 4 * k])
+                    idx.append((o, i, len(lines)))
+                    lines.append(" ".join(t))
+        if not lines:
+            return
+        p = os.path.join(wdir, "scaled.ops")
+        open(p, "w").write("\n".join(lines) + "\n")
+        (_, _), simpl, _, _ = core.run_ops(stream, p, wdir, "scaled")
+        collect["evaluations"] += len(lines)
+        collect["scaled_runs"] = len(lines)
+        for (o, i, pos) in idx:
+            a, b = sections(i), sections(simpl[pos])
+            for tag in ("R", "DD", "BW", "RET"):
+                if a.get(tag) != b.get(tag) and not all(core.tok_eq(x, y, 0.0) for x, y in zip(a.get(tag, []), b.get(tag, ["x"]))):
+                    collect["fails"].append(core.Failure("monitor", stream, ["RESET", o], 1, "return-based-figures-scale-invariant",
+                                                         f"section {tag}: {a.get(tag)} vs scaled by 4: {b.get(tag)}", impl=i, origin="scaling metamorphic run"))
+                    return
+
+
+class C15(Prop):
+    id = "C15"
+    streams = [Stream("perf", "dd", quick=200, thorough=20000, tags={"DD", "RET", "DAT", "PANIC"}, state_tags=PERF_ALL - {"DD", "RET", "DAT"}, rtol=1e-12)]
+    determined = False
+    rule = ("return paths of length 2..41: random, monotone up, monotone down, V-shaped, plateaus with ties, two drawdowns of different "
+            "depth with a recovery to a new high in between; non-trivial = the path has at least two distinct drawdown episodes or a tie")
+    level_text = ("Theorems C15.* (Lean 4, any linearly ordered field): on every non-empty positive series the scan's result is <= "
+                  "v_j/v_i - 1 for all i <= j and is realised by the returned positions start <= end < length (so it is the minimum); it is "
+                  "<= 0, > -1, and 0 when the series never falls; the compounded index has one entry per snapshot and is positive for "
+                  "returns above -100%. Tied to calculate by correspondence and a brute-force min-over-pairs monitor on the implementation's outputs.")
+    level_note = "Proof over exact arithmetic on the model of the repaired scan (F7); rounding outside the proof; tie is differential"
+    technique = "Lean 4 loop invariant (15 fields: running peak, trough since peak, best pair so far) by induction over the series + correspondence + brute-force monitor"
+    design_ref = "DESIGN.md section 8, C15"
+    assumptions = ["returns above -100% (index stays positive)"]
+
+    def nontrivial(self, stream, annot, impl):
+        for op, out in zip(annot, impl):
+            if out.startswith("R "):
+                rets = flist(sections(out)["RET"])
+                falls = sum(1 for a, b in zip(rets, rets[1:]) if a >= 0 > b) + (1 if rets and rets[0] < 0 else 0)
+                if falls >= 2:
+                    return True
+        return False
+
+    def monitor(self, stream, annot, impl):
+        for k, (op, out) in enumerate(zip(annot, impl)):
+            if not out.startswith("R "):
+                continue
+            s = sections(out)
+            rets = flist(s["RET"])
+            dates = [int(x) for x in s["DAT"][1:]]
+            mdd, ds, de = fdec(s["DD"][0]), int(s["DD"][1]), int(s["DD"][2])
+            if any(not (1 + r > 0) or not math.isfinite(r) for r in rets):
+                continue
+            idx = [100000.0]
+            for r in rets:
+                idx.append(idx[-1] * (1.0 + r))
+            best = 0.0
+            for j in range(len(idx)):
+                pk = max(idx[:j + 1])
+                best = min(best, idx[j] / pk - 1.0)
+            if not close(mdd, best, 1e-12, 1e-300):
+                yield (k, "mdd-is-min-over-pairs", f"reported {mdd}, min over i<=j of index_j/index_i-1 = {best}")
+                return
+            if not (-1 < mdd <= 0):
+                yield (k, "mdd-range", f"{mdd}")
+                return
+            if ds not in dates or de not in dates or ds > de:
+                yield (k, "drawdown-dates-are-snapshot-dates-in-order", f"start {ds} end {de}")
+                return
+            a, b = idx[dates.index(ds)], idx[dates.index(de)]
+            if not close(b / a - 1.0, mdd, 1e-12, 1e-300):
+                yield (k, "drawdown-dates-realise-the-loss", f"index at {ds} = {a}, at {de} = {b}: loss {b / a - 1.0}, reported {mdd}")
+                return
+
+
+ALL = {c.id: c for c in [C01, C02, C03, C04, C05, C06, C07, C08, C09, C10, C11, C12, C13, C14, C15, C17, C18]}
